@@ -44,6 +44,17 @@ def extract_unit(unit: str | None) -> str | None:
     return str(unit).strip("[").strip("]").replace("^", "**")
 
 
+def gotran_name(var: myokit.Variable) -> str:
+    """The name of a myokit variable in the gotran ODE. The variable that is
+    bound to time (whatever it is called) is the time of the ODE"""
+    if var.binding() == "time":
+        return "time"
+    name = var.uname()
+    if name in reserved_names or name in ("time", "t"):
+        name = f"{name}_"
+    return name
+
+
 def extract_nested_variables(
     model: myokit.Model,
 ) -> tuple[dict[sp.Symbol, sp.Symbol], dict[str, dict[sp.Symbol, sp.Symbol]]]:
@@ -66,9 +77,7 @@ def extract_nested_variables(
     def f(component, all_subs, component_subs):
         component_subs_ = {}
         for var in component.variables():
-            name = var.uname()
-            if name in reserved_names:
-                name = f"{name}_"
+            name = gotran_name(var)
 
             component_subs[component.name()][sp.Symbol(var.name())] = sp.Symbol(name)
             all_subs[sp.Symbol(var.qname())] = sp.Symbol(name)
@@ -103,9 +112,7 @@ def scope_substitutions(var: myokit.Variable) -> dict[sp.Symbol, sp.Symbol]:
     scope = var
     while isinstance(scope, myokit.Variable):
         for v in scope.variables():
-            name = v.uname()
-            if name in reserved_names:
-                name = f"{name}_"
+            name = gotran_name(v)
             subs.setdefault(sp.Symbol(v.name()), sp.Symbol(name))
         scope = scope.parent()
     return subs
@@ -162,11 +169,9 @@ def myokit_to_gotran(model: myokit.Model, protocol=None) -> ODE:
         intermediates = []
         derivatives = []
         for var in component.variables(deep=True):
-            name = var.uname()
-            if name in reserved_names:
-                name = f"{name}_"
+            name = gotran_name(var)
 
-            if name == "time":
+            if var.binding() == "time":
                 # Skip time variable
                 continue
 
